@@ -696,6 +696,12 @@ def search_c02(seed, tier, limit=5):
                         continue        # the difference of two forward timelike vectors need not be representable with tau
                     n += 1
                     run(c02_binary, {"m": m, "s1": list(sig), "s2": list(s2), "p1": pts[0], "p2": pts[1]}, out, limit)
+                # the in-place spellings of add / subtract compute the same documented sums (the object keeps its stored system)
+                for m in ("iadd", "isub"):
+                    if sig[-1] == "tau" and m == "isub":
+                        continue
+                    n += 1
+                    run(c01_binary, {"m": m, "s1": list(sig), "s2": list(s2), "p1": pts[0], "p2": pts[1]}, out, limit)
     n += neutral_sweep(seed, ("rot", "boost", "vs", "lin"), out, limit)
     return out, n
 
